@@ -109,7 +109,7 @@ theorem count_map_unique {α β : Type} [BEq β] [LawfulBEq β] (l : List α) (g
     simp at hy
     exact h a' ha' hne hy.symm
 
-/-! ### the depth-first traversal is a bijection plus padding -/
+/-! ### every traversal is a bijection onto the volume plus padding -/
 
 theorem cell_eq_some {p : Params} {B Bi sy sx subH subW io ub e ii uz iz : Nat} {c : Coord} :
     cell p B Bi sy sx subH subW io ub e ii uz iz = some c ↔
@@ -130,31 +130,67 @@ theorem cell_eq_some {p : Params} {B Bi sy sx subH subW io ub e ii uz iz : Nat} 
     · intro e; cases e
     · intro e; exact absurd ⟨⟨e.1.1, e.1.2.1⟩, e.1.2.2⟩ h
 
-/-- levels 5–10 (depth-first, not depthwise): inside one sub-kernel of one brick -/
-theorem count_subkernel_df {p : Params} (hdw : p.isDepthwise = false) (hpk : p.isPartkernel = false)
-    (hiu : 0 < p.ifmUblockDepth) (hou : 0 < p.ofmUblockDepth)
-    {B cl Bi ibd sy sx subH subW : Nat} {c : Coord}
+theorem mem_stepRange_one {s a : Nat} (hs : 0 < s) : a ∈ stepRange 1 s ↔ a = 0 := by
+  rw [mem_stepRange hs]
+  constructor
+  · rintro ⟨h1, _⟩; omega
+  · rintro rfl; exact ⟨by omega, Nat.dvd_zero _⟩
+
+theorem le_roundUp (n d : Nat) (hd : 0 < d) : n ≤ roundUp n d := by
+  unfold roundUp
+  have h1 := Nat.div_add_mod (n + d - 1) d
+  have h2 := Nat.mod_lt (n + d - 1) hd
+  rw [Nat.mul_comm] at h1
+  omega
+
+theorem le_subkernelElements (p : Params) (subW subH : Nat) : subW * subH ≤ p.subkernelElements subW subH := by
+  unfold Params.subkernelElements
+  simp only []
+  split
+  · split
+    · exact le_roundUp _ _ (by decide)
+    · split
+      · exact le_roundUp _ _ (by decide)
+      · exact Nat.le_refl _
+  · split
+    · exact le_roundUp _ _ (by decide)
+    · exact Nat.le_refl _
+
+/-- levels 5–10, all traversals: inside one sub-kernel of one brick -/
+theorem count_subkernel {p : Params} (hiu : 0 < p.ifmUblockDepth) (hou : 0 < p.ofmUblockDepth)
+    {B cl Bi clIfm sy sx subH subW : Nat} {c : Coord}
     (hsw : 0 < subW)
     (ho1 : B ≤ c.o) (ho2 : c.o < B + cl) (ho3 : c.o < p.ofmDepth)
-    (hi1 : Bi ≤ c.i) (hi2 : c.i < Bi + ibd) (hi3 : c.i < p.ifmDepth)
+    (hi1 : Bi ≤ c.i) (hi2 : c.i < Bi + clIfm) (hi3 : c.i < p.ifmDepth)
+    (hdwi : p.isDepthwise = true → c.i = Bi)
     (hy1 : sy ≤ c.y) (hy2 : c.y < sy + subH) (hx1 : sx ≤ c.x) (hx2 : c.x < sx + subW) :
-    count (some c) (subkernel p B cl Bi ibd sy sx subH subW) = 1 := by
+    count (some c) (subkernel p B cl Bi clIfm sy sx subH subW) = 1 := by
   obtain ⟨co, cy, cx, ci⟩ := c
-  simp only at ho1 ho2 ho3 hi1 hi2 hi3 hy1 hy2 hx1 hx2
+  simp only at ho1 ho2 ho3 hi1 hi2 hi3 hy1 hy2 hx1 hx2 hdwi
+  have helems := le_subkernelElements p subW subH
   unfold subkernel
-  simp only [hpk, hdw, Bool.false_eq_true, if_false, Params.subkernelElements]
-  -- level 5: outer IFM micro-block loop has the single iteration 0
-  have h5 : (0 : Nat) ∈ stepRange 1 p.ifmUblockDepth := (mem_stepRange hiu).mpr ⟨by omega, Nat.dvd_zero _⟩
-  refine (count_flatMap_unique _ _ _ 0 (nodup_stepRange hiu) h5 ?_).trans ?_
-  · intro a' ha' hne
-    rw [mem_stepRange hiu] at ha'
-    obtain ⟨k, rfl⟩ := ha'.2
-    have : k = 0 := by
-      rcases Nat.eq_zero_or_pos k with h | h
-      · exact h
-      · have := Nat.le_mul_of_pos_right p.ifmUblockDepth h
-        omega
-    subst this; simp at hne
+  simp only []
+  generalize p.subkernelElements subW subH = elems at helems
+  obtain ⟨hib1, hib2, hib3⟩ := block_of (v := ci - Bi) hiu
+  generalize hib : (ci - Bi) / p.ifmUblockDepth * p.ifmUblockDepth = ib at hib1 hib2 hib3
+  -- level 5: outer IFM micro-block (part-kernel-first) or the single iteration 0
+  refine (count_flatMap_unique _ _ _ (if p.isPartkernel then ib else 0) (nodup_stepRange hiu) ?_ ?_).trans ?_
+  · split
+    · exact (mem_stepRange hiu).mpr ⟨by omega, hib1⟩
+    · exact (mem_stepRange_one hiu).mpr rfl
+  · intro io' hio' hne hmem
+    simp only [mem_flatMap, mem_map, mem_range, cell_eq_some, Coord.mk.injEq] at hmem
+    obtain ⟨ub, hub, e, he, ii, hii, uz, huz, iz, hiz, hg, h1, h2, h3, h4⟩ := hmem
+    by_cases hpk : p.isPartkernel = true
+    · simp only [hpk, if_true] at hio' hii hne
+      rw [mem_stepRange hiu] at hio'
+      rw [mem_stepRange_one hiu] at hii
+      subst hii
+      have hizlt : iz < p.ifmUblockDepth := by split at hiz <;> omega
+      exact hne (block_unique (v := ci - Bi) hio'.2 hib1 (by omega) (by omega) hib2 hib3)
+    · simp only [hpk, Bool.false_eq_true, if_false] at hio' hne
+      rw [mem_stepRange_one hiu] at hio'
+      exact hne hio'
   -- level 6: OFM micro-block
   obtain ⟨hub1, hub2, hub3⟩ := block_of (v := co - B) hou
   refine (count_flatMap_unique _ _ _ ((co - B) / p.ofmUblockDepth * p.ofmUblockDepth) (nodup_stepRange hou)
@@ -166,12 +202,12 @@ theorem count_subkernel_df {p : Params} (hdw : p.isDepthwise = false) (hpk : p.i
     exact hne (block_unique (v := co - B) hub'.2 hub1 (by omega) (by omega) hub2 hub3)
   generalize hub : (co - B) / p.ofmUblockDepth * p.ofmUblockDepth = ub at hub1 hub2 hub3
   -- level 7: kernel element
-  have hdm := Nat.div_add_mod ((cy - sy) * subW + (cx - sx)) subW
   have he_div : ((cy - sy) * subW + (cx - sx)) / subW = cy - sy := by
     rw [Nat.add_comm, Nat.add_mul_div_right _ _ hsw, Nat.div_eq_of_lt (by omega)]; omega
   have he_mod : ((cy - sy) * subW + (cx - sx)) % subW = cx - sx := by
     rw [Nat.add_comm, Nat.add_mul_mod_self_right, Nat.mod_eq_of_lt (by omega)]
-  have he_lt : (cy - sy) * subW + (cx - sx) < subW * subH := by
+  have he_lt : (cy - sy) * subW + (cx - sx) < elems := by
+    refine Nat.lt_of_lt_of_le ?_ helems
     calc (cy - sy) * subW + (cx - sx) < (cy - sy) * subW + subW := by omega
       _ = (cy - sy + 1) * subW := by rw [Nat.add_mul, Nat.one_mul]
       _ ≤ subH * subW := Nat.mul_le_mul_right _ (by omega)
@@ -185,16 +221,24 @@ theorem count_subkernel_df {p : Params} (hdw : p.isDepthwise = false) (hpk : p.i
     have h2' : e' / subW = cy - sy := by omega
     have h3' : e' % subW = cx - sx := by omega
     rw [← this, h2', h3', Nat.mul_comm]
-  -- level 8: inner IFM micro-block
-  obtain ⟨hib1, hib2, hib3⟩ := block_of (v := ci - Bi) hiu
-  refine (count_flatMap_unique _ _ _ ((ci - Bi) / p.ifmUblockDepth * p.ifmUblockDepth) (nodup_stepRange hiu)
-    ((mem_stepRange hiu).mpr ⟨by omega, hib1⟩) ?_).trans ?_
+  -- level 8: inner IFM micro-block (depth-first) or the single iteration 0
+  refine (count_flatMap_unique _ _ _ (if p.isPartkernel then 0 else ib) (nodup_stepRange hiu) ?_ ?_).trans ?_
+  · split
+    · exact (mem_stepRange_one hiu).mpr rfl
+    · exact (mem_stepRange hiu).mpr ⟨by omega, hib1⟩
   · intro ii' hii' hne hmem
-    rw [mem_stepRange hiu] at hii'
     simp only [mem_flatMap, mem_map, mem_range, cell_eq_some, Coord.mk.injEq] at hmem
     obtain ⟨uz, huz, iz, hiz, hg, h1, h2, h3, h4⟩ := hmem
-    exact hne (block_unique (v := ci - Bi) hii'.2 hib1 (by omega) (by omega) hib2 hib3)
-  generalize hib : (ci - Bi) / p.ifmUblockDepth * p.ifmUblockDepth = ib at hib1 hib2 hib3
+    by_cases hpk : p.isPartkernel = true
+    · simp only [hpk, if_true] at hii' hne
+      rw [mem_stepRange_one hiu] at hii'
+      exact hne hii'
+    · simp only [hpk, Bool.false_eq_true, if_false] at hii' hne h4
+      rw [mem_stepRange hiu] at hii'
+      have hizlt : iz < p.ifmUblockDepth := by split at hiz <;> omega
+      exact hne (block_unique (v := ci - Bi) hii'.2 hib1 (by omega) (by omega) hib2 hib3)
+  have hsum : (if p.isPartkernel = true then 0 else ib) + (if p.isPartkernel = true then ib else 0) = ib := by
+    split <;> omega
   -- level 9: element of the OFM micro-block
   refine (count_flatMap_unique _ _ _ (co - B - ub) nodup_range (mem_range.mpr (by omega)) ?_).trans ?_
   · intro uz' huz' hne hmem
@@ -202,65 +246,80 @@ theorem count_subkernel_df {p : Params} (hdw : p.isDepthwise = false) (hpk : p.i
     obtain ⟨iz, hiz, hg, h1, h2, h3, h4⟩ := hmem
     omega
   -- level 10: element of the IFM micro-block
-  refine count_map_unique _ _ _ (ci - Bi - ib) nodup_range (mem_range.mpr (by omega)) ?_ ?_
-  · rw [cell_eq_some, he_div, he_mod]
+  have hizr : ci - Bi - ib < (if p.isDepthwise = true then 1 else p.ifmUblockDepth) := by
+    split
+    · rename_i hd; have := hdwi hd; omega
+    · omega
+  refine count_map_unique _ _ _ (ci - Bi - ib) nodup_range (mem_range.mpr hizr) ?_ ?_
+  · rw [cell_eq_some, he_div, he_mod, hsum]
     refine ⟨⟨by omega, by omega, by omega⟩, ?_⟩
     simp only [Coord.mk.injEq]
     omega
   · intro iz' hiz' hne hmem
-    simp only [cell_eq_some, Coord.mk.injEq] at hmem
+    simp only [cell_eq_some, Coord.mk.injEq, hsum] at hmem
     omega
-/-- what a coordinate emitted inside one sub-kernel looks like (depth-first, not depthwise) -/
-theorem mem_subkernel_df {p : Params} (hdw : p.isDepthwise = false) (hpk : p.isPartkernel = false)
-    (hiu : 0 < p.ifmUblockDepth) (hou : 0 < p.ofmUblockDepth)
-    {B cl Bi ibd sy sx subH subW : Nat} {c : Coord} (hsw : 0 < subW)
-    (h : some c ∈ subkernel p B cl Bi ibd sy sx subH subW) :
-    ∃ ub uz ii iz, (ub < cl ∧ p.ofmUblockDepth ∣ ub) ∧ uz < p.ofmUblockDepth ∧
-      (ii < ibd ∧ p.ifmUblockDepth ∣ ii) ∧ iz < p.ifmUblockDepth ∧
-      c.o = B + ub + uz ∧ c.i = Bi + ii + iz ∧ c.o < p.ofmDepth ∧ c.i < p.ifmDepth ∧
-      sy ≤ c.y ∧ c.y < sy + subH ∧ sx ≤ c.x ∧ c.x < sx + subW := by
-  unfold subkernel at h
-  simp only [hpk, hdw, Bool.false_eq_true, if_false, mem_flatMap, mem_map, mem_range, cell_eq_some,
-    mem_stepRange hiu, mem_stepRange hou] at h
-  obtain ⟨io, ⟨hio1, hio2⟩, ub, hub, e, he, ii, hii, uz, huz, iz, hiz, ⟨g1, g2, g3⟩, rfl⟩ := h
-  have hio : io = 0 := by
-    obtain ⟨k, rfl⟩ := hio2
-    rcases Nat.eq_zero_or_pos k with h | h
-    · subst h; rfl
-    · have := Nat.le_mul_of_pos_right p.ifmUblockDepth h
-      omega
-  subst hio
-  have := Nat.mod_lt e hsw
-  exact ⟨ub, uz, ii, iz, hub, huz, hii, hiz, rfl, by simp, g2, by simpa using g1, by simp, by simp; omega, by simp, by simp; omega⟩
-
 
 theorem ifmBlockDepth_pos (p : Params) : 0 < p.ifmBlockDepth := by
   unfold Params.ifmBlockDepth; split <;> decide
 
+theorem clippedIfm_le {p : Params} (v : ValidConfig p) (Bi : Nat) : clippedIfm p Bi ≤ p.ifmBlockDepth := by
+  unfold clippedIfm
+  split
+  · exact Nat.le_of_dvd (ifmBlockDepth_pos p) v.iuDvd
+  · split
+    · exact Nat.min_le_left _ _
+    · exact Nat.le_refl _
+
+/-- what a coordinate emitted inside one sub-kernel looks like (all traversals) -/
+theorem mem_subkernel {p : Params} (hiu : 0 < p.ifmUblockDepth) (hou : 0 < p.ofmUblockDepth)
+    {B cl Bi clIfm sy sx subH subW : Nat} {c : Coord} (hsw : 0 < subW)
+    (h : some c ∈ subkernel p B cl Bi clIfm sy sx subH subW) :
+    ∃ ub uz t iz, (ub < cl ∧ p.ofmUblockDepth ∣ ub) ∧ uz < p.ofmUblockDepth ∧
+      (t < clIfm ∧ p.ifmUblockDepth ∣ t) ∧ iz < p.ifmUblockDepth ∧
+      c.o = B + ub + uz ∧ c.i = Bi + t + iz ∧ c.o < p.ofmDepth ∧ c.i < p.ifmDepth ∧
+      sy ≤ c.y ∧ c.y < sy + subH ∧ sx ≤ c.x ∧ c.x < sx + subW := by
+  unfold subkernel at h
+  simp only [mem_flatMap, mem_map, mem_range, cell_eq_some, mem_stepRange hou] at h
+  obtain ⟨io, hio, ub, hub, e, he, ii, hii, uz, huz, iz, hiz, ⟨g1, g2, g3⟩, rfl⟩ := h
+  have hizlt : iz < p.ifmUblockDepth := by split at hiz <;> omega
+  have := Nat.mod_lt e hsw
+  have ht : (ii + io < clIfm ∧ p.ifmUblockDepth ∣ ii + io) := by
+    by_cases hpk : p.isPartkernel = true
+    · simp only [hpk, if_true] at hio hii
+      rw [mem_stepRange_one hiu] at hii
+      rw [mem_stepRange hiu] at hio
+      subst hii; simpa using hio
+    · simp only [hpk, Bool.false_eq_true, if_false] at hio hii
+      rw [mem_stepRange_one hiu] at hio
+      rw [mem_stepRange hiu] at hii
+      subst hio; simpa using hii
+  exact ⟨ub, uz, ii + io, iz, hub, huz, ht, hizlt, rfl, rfl, g2, g1, by simp, by simp; omega, by simp, by simp; omega⟩
+
 /-- what a coordinate emitted inside one brick looks like -/
-theorem mem_brick_df {p : Params} (v : ValidDepthFirst p) {B cl Bi : Nat} {c : Coord}
+theorem mem_brick {p : Params} (v : ValidConfig p) {B cl Bi : Nat} {c : Coord}
     (h : some c ∈ brick p B cl Bi) :
-    ∃ ub uz ii iz, (ub < cl ∧ p.ofmUblockDepth ∣ ub) ∧ uz < p.ofmUblockDepth ∧
-      (ii < p.ifmBlockDepth ∧ p.ifmUblockDepth ∣ ii) ∧ iz < p.ifmUblockDepth ∧
-      c.o = B + ub + uz ∧ c.i = Bi + ii + iz ∧ p.inRange c = true := by
+    ∃ ub uz t iz, (ub < cl ∧ p.ofmUblockDepth ∣ ub) ∧ uz < p.ofmUblockDepth ∧
+      (t < p.ifmBlockDepth ∧ p.ifmUblockDepth ∣ t) ∧ iz < p.ifmUblockDepth ∧
+      c.o = B + ub + uz ∧ c.i = Bi + t + iz ∧ p.inRange c = true := by
   unfold brick at h
-  simp only [v.notDepthwise, v.notPartkernel, Bool.false_eq_true, if_false, mem_flatMap,
-    mem_stepRange v.dhPos, mem_stepRange v.dwPos] at h
+  simp only [mem_flatMap, mem_stepRange v.dhPos, mem_stepRange v.dwPos] at h
   obtain ⟨sy, ⟨hsy, _⟩, sx, ⟨hsx, _⟩, h⟩ := h
-  obtain ⟨ub, uz, ii, iz, h1, h2, h3, h4, h5, h6, h7, h8, h9, h10, h11, h12⟩ :=
-    mem_subkernel_df v.notDepthwise v.notPartkernel v.iuPos v.ouPos (by have := v.dwPos; omega) h
-  refine ⟨ub, uz, ii, iz, h1, h2, h3, h4, h5, h6, ?_⟩
+  obtain ⟨ub, uz, t, iz, h1, h2, h3, h4, h5, h6, h7, h8, h9, h10, h11, h12⟩ :=
+    mem_subkernel v.iuPos v.ouPos (by have := v.dwPos; omega) h
+  have hcl := clippedIfm_le v Bi
+  refine ⟨ub, uz, t, iz, h1, h2, ⟨by omega, h3.2⟩, h4, h5, h6, ?_⟩
   simp only [Params.inRange, Bool.and_eq_true, decide_eq_true_eq]
   omega
 
 /-- levels 3–4: the sub-kernel decomposition inside one brick -/
-theorem count_brick_df {p : Params} (v : ValidDepthFirst p) {B cl Bi : Nat} {c : Coord}
-    (ho1 : B ≤ c.o) (ho2 : c.o < B + cl) (hi1 : Bi ≤ c.i) (hi2 : c.i < Bi + p.ifmBlockDepth)
+theorem count_brick {p : Params} (v : ValidConfig p) {B cl Bi : Nat} {c : Coord}
+    (ho1 : B ≤ c.o) (ho2 : c.o < B + cl) (hi1 : Bi ≤ c.i) (hi2 : c.i < Bi + clippedIfm p Bi)
+    (hdwi : p.isDepthwise = true → c.i = Bi)
     (hr : p.inRange c = true) : count (some c) (brick p B cl Bi) = 1 := by
   simp only [Params.inRange, Bool.and_eq_true, decide_eq_true_eq] at hr
   obtain ⟨⟨⟨hr1, hr2⟩, hr3⟩, hr4⟩ := hr
   unfold brick
-  simp only [v.notDepthwise, v.notPartkernel, Bool.false_eq_true, if_false]
+  simp only []
   obtain ⟨hy1, hy2, hy3⟩ := block_of (v := c.y) v.dhPos
   obtain ⟨hx1, hx2, hx3⟩ := block_of (v := c.x) v.dwPos
   refine (count_flatMap_unique _ _ _ (c.y / p.decompH * p.decompH) (nodup_stepRange v.dhPos)
@@ -270,36 +329,36 @@ theorem count_brick_df {p : Params} (v : ValidDepthFirst p) {B cl Bi : Nat} {c :
     simp only [mem_flatMap, mem_stepRange v.dwPos] at hmem
     obtain ⟨sx, ⟨hsx, _⟩, hmem⟩ := hmem
     obtain ⟨_, _, _, _, _, _, _, _, _, _, _, _, h9, h10, _, _⟩ :=
-      mem_subkernel_df v.notDepthwise v.notPartkernel v.iuPos v.ouPos (by have := v.dwPos; omega) hmem
+      mem_subkernel v.iuPos v.ouPos (by have := v.dwPos; omega) hmem
     exact hne (block_unique (v := c.y) hsy'.2 hy1 h9 (by omega) hy2 hy3)
   refine (count_flatMap_unique _ _ _ (c.x / p.decompW * p.decompW) (nodup_stepRange v.dwPos)
     ((mem_stepRange v.dwPos).mpr ⟨by omega, hx1⟩) ?_).trans ?_
   · intro sx' hsx' hne hmem
     rw [mem_stepRange v.dwPos] at hsx'
     obtain ⟨_, _, _, _, _, _, _, _, _, _, _, _, _, _, h11, h12⟩ :=
-      mem_subkernel_df v.notDepthwise v.notPartkernel v.iuPos v.ouPos (by have := v.dwPos; omega) hmem
+      mem_subkernel v.iuPos v.ouPos (by have := v.dwPos; omega) hmem
     exact hne (block_unique (v := c.x) hsx'.2 hx1 h11 (by omega) hx2 hx3)
-  exact count_subkernel_df v.notDepthwise v.notPartkernel v.iuPos v.ouPos (by have := v.dwPos; omega)
-    ho1 ho2 hr1 hi1 hi2 hr4 hy2 (by omega) hx2 (by omega)
+  exact count_subkernel v.iuPos v.ouPos (by have := v.dwPos; omega)
+    ho1 ho2 hr1 hi1 hi2 hr4 hdwi hy2 (by omega) hx2 (by omega)
 
 /-- every emitted coordinate lies inside the volume -/
-theorem traverse_sound_df {p : Params} (v : ValidDepthFirst p) {c : Coord} (h : some c ∈ traverse p) :
+theorem traverse_sound {p : Params} (v : ValidConfig p) {c : Coord} (h : some c ∈ traverse p) :
     p.inRange c = true := by
   unfold traverse at h
   simp only [mem_flatMap] at h
   obtain ⟨B, _, Bi, _, h⟩ := h
-  obtain ⟨_, _, _, _, _, _, _, _, _, _, hr⟩ := mem_brick_df v h
+  obtain ⟨_, _, _, _, _, _, _, _, _, _, hr⟩ := mem_brick v h
   exact hr
 
 /-- levels 1–2: every in-range coordinate is emitted exactly once -/
-theorem count_traverse_df {p : Params} (v : ValidDepthFirst p) {c : Coord} (hr : p.inRange c = true) :
+theorem count_traverse {p : Params} (v : ValidConfig p) {c : Coord} (hr : p.inRange c = true) :
     count (some c) (traverse p) = 1 := by
   have hr' := hr
   simp only [Params.inRange, Bool.and_eq_true, decide_eq_true_eq] at hr'
   obtain ⟨⟨⟨hr1, hr2⟩, hr3⟩, hr4⟩ := hr'
   have hibd := ifmBlockDepth_pos p
   unfold traverse
-  simp only [v.notDepthwise, Bool.false_eq_true, if_false]
+  simp only []
   obtain ⟨ho1, ho2, ho3⟩ := block_of (v := c.o) v.obdPos
   obtain ⟨hi1, hi2, hi3⟩ := block_of (v := c.i) hibd
   refine (count_flatMap_unique _ _ _ (c.o / p.ofmBlockDepth * p.ofmBlockDepth) (nodup_stepRange v.obdPos)
@@ -308,17 +367,29 @@ theorem count_traverse_df {p : Params} (v : ValidDepthFirst p) {c : Coord} (hr :
     rw [mem_stepRange v.obdPos] at hB'
     simp only [mem_flatMap] at hmem
     obtain ⟨Bi, _, hmem⟩ := hmem
-    obtain ⟨ub, uz, ii, iz, ⟨h1, h1'⟩, h2, _, _, h5, _, _⟩ := mem_brick_df v hmem
+    obtain ⟨ub, uz, t, iz, ⟨h1, h1'⟩, h2, _, _, h5, _, _⟩ := mem_brick v hmem
     have : ub + p.ofmUblockDepth ≤ p.ofmBlockDepth := dvd_lt_add_le h1' v.ouDvd (by omega)
     exact hne (block_unique (v := c.o) hB'.2 ho1 (by omega) (by omega) ho2 ho3)
+  have hci_dw : p.isDepthwise = true → c.i = 0 := by
+    intro hd; have := v.depthwiseIfm hd; omega
+  have hBi0 : p.isDepthwise = true → c.i / p.ifmBlockDepth * p.ifmBlockDepth = 0 := by
+    intro hd; rw [hci_dw hd]; simp
   refine (count_flatMap_unique _ _ _ (c.i / p.ifmBlockDepth * p.ifmBlockDepth) (nodup_stepRange hibd)
-    ((mem_stepRange hibd).mpr ⟨by omega, hi1⟩) ?_).trans ?_
+    ((mem_stepRange hibd).mpr ⟨?_, hi1⟩) ?_).trans ?_
+  · split
+    · rename_i hd; rw [hBi0 hd]; omega
+    · omega
   · intro Bi' hBi' hne hmem
     rw [mem_stepRange hibd] at hBi'
-    obtain ⟨ub, uz, ii, iz, _, _, ⟨h3, h3'⟩, h4, _, h6, _⟩ := mem_brick_df v hmem
-    have : ii + p.ifmUblockDepth ≤ p.ifmBlockDepth := dvd_lt_add_le h3' v.iuDvd h3
+    obtain ⟨ub, uz, t, iz, _, _, ⟨h3, h3'⟩, h4, _, h6, _⟩ := mem_brick v hmem
+    have : t + p.ifmUblockDepth ≤ p.ifmBlockDepth := dvd_lt_add_le h3' v.iuDvd h3
     exact hne (block_unique (v := c.i) hBi'.2 hi1 (by omega) (by omega) hi2 hi3)
-  exact count_brick_df v ho2 (by omega) hi2 hi3 hr
+  refine count_brick v ho2 (by omega) hi2 ?_ ?_ hr
+  · unfold clippedIfm
+    split
+    · rename_i hd; rw [hBi0 hd, hci_dw hd]; have := v.iuPos; omega
+    · split <;> omega
+  · intro hd; rw [hBi0 hd, hci_dw hd]
 
 
 end VelaVerif.Reorder
